@@ -1,4 +1,266 @@
-import QipVerif.Model.Route
-/-! # C07 — nearest-neighbour routing (theorems follow) -/
+import QipVerif.Lemmas.RouteDen
+/-!
+# C07 — nearest-neighbour routing preserves the unitary and yields adjacent gates only
+
+Property theorems only.  `Route.toChain N setup gs` is the model of
+`to_chain_structure(qc, setup).gates` (`Route.routeGate` of one loop iteration) **with the four
+repairs `fixes/C07-{1,2,3,4}.patch` applied**; `Route.toChainV Variant.old` is the code as found
+at the pinned commit, for which the property is false (counter-examples at the end).
+`Route.adjacentGates` models `QubitCircuit.adjacent_gates`.
+
+All theorems hold for every register size `N`, both topologies, every ordered pair of distinct
+in-range qubits and every handled gate name (`WellFormed`, `Handled`); nothing is bounded.
+-/
 namespace QipVerif.C07
+open QipVerif.Route
+
+/-! ## one handled gate -/
+
+/-- **(i) indices.** Every qubit index of every gate emitted for a handled gate is `< N`. -/
+theorem route_in_range (N : Nat) (setup : Setup) (hs : setup = .linear ∨ setup = .circular)
+    (g : Gate) (hw : WellFormed N g) (hh : Handled g) (out : List Gate)
+    (ho : routeGate N setup g = .ok out) : ∀ h ∈ out, ∀ q ∈ h.qubits, q < N := by
+  obtain ⟨out', S, G, a, b, h1, -, -, ha, hb, hr, -, hq⟩ := routeGate_handled_spec N setup hs g hw hh
+  rw [h1] at ho; cases ho
+  intro h hm q hq'
+  rcases hr.mem hm with rfl | ⟨p, hp, rfl⟩
+  · have ta := hr.track_lt ha
+    have tb := hr.track_lt hb
+    rcases hq with hq | hq <;> (rw [hq] at hq'; simp at hq'; rcases hq' with rfl | rfl <;> assumption)
+  · have := hr.swaps_ok p hp
+    simp [Gate.qubits, swapG] at hq'
+    rcases hq' with rfl | rfl
+    · exact this.1
+    · exact this.2.1
+
+example : WellFormed 9 ⟨.CNOT, [0], [5], 0, 0⟩ ∧ Handled ⟨.CNOT, [0], [5], 0, 0⟩ ∧
+    routeGate 9 .circular ⟨.CNOT, [0], [5], 0, 0⟩ =
+      .ok [swapG 5 6, swapG 8 0, swapG 6 7, ⟨.CNOT, [8], [7], 0, 0⟩, swapG 6 7, swapG 8 0, swapG 5 6] := by
+  refine ⟨⟨fun _ => ⟨0, 5, rfl, rfl, by decide, by decide, by decide⟩, fun h => absurd h (by decide)⟩,
+    by decide, by decide⟩
+
+/-- **(ii) adjacency.** Every gate emitted for a handled gate is a two-qubit gate on neighbours of
+the topology: `(i, i+1)`, or the wrap pair `{0, N-1}` on a ring. -/
+theorem route_adjacent (N : Nat) (setup : Setup) (hs : setup = .linear ∨ setup = .circular)
+    (g : Gate) (hw : WellFormed N g) (hh : Handled g) (out : List Gate)
+    (ho : routeGate N setup g = .ok out) : ∀ h ∈ out, ∃ i j, h.qubits = [i, j] ∧ Adj setup N i j := by
+  obtain ⟨out', S, G, a, b, h1, -, -, -, -, hr, -, hq⟩ := routeGate_handled_spec N setup hs g hw hh
+  rw [h1] at ho; cases ho
+  intro h hm
+  rcases hr.mem hm with rfl | ⟨p, hp, rfl⟩
+  · rcases hq with hq | hq
+    · exact ⟨_, _, hq, hr.adj⟩
+    · exact ⟨_, _, hq, hr.adj.symm⟩
+  · exact ⟨p.1, p.2, rfl, (hr.swaps_ok p hp).2.2.2⟩
+
+example : Adj .circular 9 8 0 ∧ ¬ Adj .linear 9 8 0 ∧ Adj .linear 9 6 7 := by decide
+
+/-- **(iii) shape, CNOT / CSIGN.** The output is `S ++ [G] ++ S'` with `S` a list of SWAPs on
+neighbouring in-range qubits, `S' = S` reversed; `G` has the gate's name, its control is where `S`
+moved the control and its target where `S` moved the target; `S ++ S'` is the identity permutation. -/
+theorem route_shape_ctl (N : Nat) (setup : Setup) (hs : setup = .linear ∨ setup = .circular)
+    (g : Gate) (c t : Nat) (hnm : g.name.isCtl = true) (hC : g.controls = [c]) (hT : g.targets = [t])
+    (hct : c ≠ t) (hc : c < N) (ht : t < N) :
+    ∃ S : List (Nat × Nat),
+      routeGate N setup g = .ok (swaps S ++ ⟨g.name, [track S c], [track S t], 0, 0⟩ :: swaps S.reverse) ∧
+      (∀ p ∈ S, p.1 < N ∧ p.2 < N ∧ p.1 ≠ p.2 ∧ Adj setup N p.1 p.2) ∧
+      Adj setup N (track S c) (track S t) ∧
+      ∀ x, track (S ++ S.reverse) x = x := by
+  obtain ⟨out, S, h1, h2⟩ := routeCtl_spec N setup hs g c t hnm hC hT hct hc ht
+  exact ⟨S, by rw [routeGate_ctl hnm hC hT, h1, h2.out_eq], h2.swaps_ok, h2.adj, track_palindrome S⟩
+
+example : ∃ S, S = [(4, 5), (6, 0)] ∧ track S 4 = 5 ∧ track S 0 = 6 ∧
+    routeGate 7 .circular ⟨.CNOT, [0], [4], 0, 0⟩ =
+      .ok (swaps S ++ ⟨.CNOT, [track S 0], [track S 4], 0, 0⟩ :: swaps S.reverse) :=
+  ⟨_, rfl, by decide, by decide, by decide⟩
+
+/-- **(iii) shape, exchange-type gates** (SWAP, ISWAP, SQRTISWAP, SQRTSWAP, BERKELEY, SWAPalpha):
+as above; `G` keeps name and argument and acts on the images of the two targets, listed in one
+of the two orders (these gates are symmetric, see `SwapLaws.exch_symm`). -/
+theorem route_shape_swp (N : Nat) (setup : Setup) (hs : setup = .linear ∨ setup = .circular)
+    (g : Gate) (t0 t1 : Nat) (hnm : g.name.isSwp = true) (hT : g.targets = [t0, t1])
+    (h01 : t0 ≠ t1) (h0 : t0 < N) (h1 : t1 < N) :
+    ∃ (S : List (Nat × Nat)) (p q : Nat),
+      routeGate N setup g = .ok (swaps S ++ ⟨g.name, [], [p, q], g.arg, 0⟩ :: swaps S.reverse) ∧
+      ((p = track S t0 ∧ q = track S t1) ∨ (p = track S t1 ∧ q = track S t0)) ∧
+      (∀ p ∈ S, p.1 < N ∧ p.2 < N ∧ p.1 ≠ p.2 ∧ Adj setup N p.1 p.2) ∧
+      Adj setup N (track S t0) (track S t1) ∧
+      ∀ x, track (S ++ S.reverse) x = x := by
+  obtain ⟨S, p, q, h2, h3⟩ := routeSwp_spec N setup hs g t0 t1 h01 h0 h1
+  exact ⟨S, p, q, by rw [routeGate_swp hnm hT, h2.out_eq], h3, h2.swaps_ok, h2.adj, track_palindrome S⟩
+
+example : routeGate 6 .linear ⟨.SWAPalpha, [], [5, 1], 7, 0⟩ =
+    .ok (swaps [(1, 2), (4, 5), (2, 3)] ++ ⟨.SWAPalpha, [], [3, 4], 7, 0⟩ :: swaps [(2, 3), (4, 5), (1, 2)]) := by
+  decide
+
+/-! ## pass-through and circuits -/
+
+/-- **(iv)** a gate the router does not handle (any other name, a measurement) comes out as it is -/
+theorem route_passthrough (N : Nat) (setup : Setup) (g : Gate) (h : ¬ Handled g) :
+    routeGate N setup g = .ok [g] := routeGate_other h
+
+example : ¬ Handled ⟨.other 3, [0, 4], [2], 5, 1⟩ ∧ ¬ Handled ⟨.meas 0, [], [1], 0, 0⟩ := by decide
+
+/-- **(iv)** the output of a circuit is the concatenation, in order, of the per-gate outputs -/
+theorem route_concat (N : Nat) (setup : Setup) (gs out : List Gate) :
+    toChain N setup gs = .ok out ↔
+      ∃ parts : List (List Gate), gs.map (routeGate N setup) = parts.map Except.ok ∧ out = parts.flatten :=
+  toChain_concat N setup gs out
+
+/-- … in particular routing distributes over concatenation of circuits -/
+theorem route_append (N : Nat) (setup : Setup) (gs₁ gs₂ out : List Gate) :
+    toChain N setup (gs₁ ++ gs₂) = .ok out ↔
+      ∃ a b, toChain N setup gs₁ = .ok a ∧ toChain N setup gs₂ = .ok b ∧ out = a ++ b :=
+  toChain_append N setup gs₁ gs₂ out
+
+/-- routing a circuit of well-formed gates never raises -/
+theorem route_total (N : Nat) (setup : Setup) (hs : setup = .linear ∨ setup = .circular)
+    (gs : List Gate) (hw : ∀ g ∈ gs, WellFormed N g) : ∃ out, toChain N setup gs = .ok out :=
+  toChain_total N setup hs gs hw
+
+/-- **(iv)** the unhandled gates of the output are exactly those of the input, unchanged and in order -/
+theorem circuit_passthrough_order (N : Nat) (setup : Setup) (hs : setup = .linear ∨ setup = .circular)
+    (gs : List Gate) (hw : ∀ g ∈ gs, WellFormed N g) (out : List Gate) (ho : toChain N setup gs = .ok out) :
+    out.filter (fun h => !decide (Handled h)) = gs.filter (fun h => !decide (Handled h)) :=
+  toChain_unhandled_order N setup hs gs hw out ho
+
+/-- **(i) for circuits.** If the unhandled input gates are in range, every index of the output is. -/
+theorem circuit_in_range (N : Nat) (setup : Setup) (hs : setup = .linear ∨ setup = .circular)
+    (gs : List Gate) (hw : ∀ g ∈ gs, WellFormed N g)
+    (hr : ∀ g ∈ gs, ¬ Handled g → ∀ q ∈ g.qubits, q < N)
+    (out : List Gate) (ho : toChain N setup gs = .ok out) : ∀ h ∈ out, ∀ q ∈ h.qubits, q < N := by
+  intro h hm
+  obtain ⟨g, hg, a, ha, hma⟩ := toChain_mem ho hm
+  by_cases hh : Handled g
+  · exact route_in_range N setup hs g (hw g hg) hh a ha h hma
+  · rw [routeGate_other hh] at ha; cases ha
+    simp at hma; subst hma
+    exact hr h hg hh
+
+/-- **(ii) for circuits.** Every gate of the output is an unhandled gate of the input or a
+two-qubit gate on neighbours. -/
+theorem circuit_adjacent (N : Nat) (setup : Setup) (hs : setup = .linear ∨ setup = .circular)
+    (gs : List Gate) (hw : ∀ g ∈ gs, WellFormed N g)
+    (out : List Gate) (ho : toChain N setup gs = .ok out) :
+    ∀ h ∈ out, (h ∈ gs ∧ ¬ Handled h) ∨ ∃ i j, h.qubits = [i, j] ∧ Adj setup N i j := by
+  intro h hm
+  obtain ⟨g, hg, a, ha, hma⟩ := toChain_mem ho hm
+  by_cases hh : Handled g
+  · exact Or.inr (route_adjacent N setup hs g (hw g hg) hh a ha h hma)
+  · rw [routeGate_other hh] at ha; cases ha
+    simp at hma; subst hma
+    exact Or.inl ⟨hg, hh⟩
+
+example : toChain 7 .circular [⟨.other 1, [], [3], 2, 0⟩, ⟨.CSIGN, [6], [1], 0, 0⟩, ⟨.meas 0, [], [2], 0, 0⟩] =
+    .ok [⟨.other 1, [], [3], 2, 0⟩, swapG 6 0, ⟨.CSIGN, [0], [1], 0, 0⟩, swapG 6 0, ⟨.meas 0, [], [2], 0, 0⟩] := by
+  decide
+
+/-! ## same unitary -/
+
+section
+variable {M : Type} [Monoid M]
+
+/-- **(v) route_den, one gate.** Over any monoid and any interpretation of gates that satisfies
+the one hypothesis `SwapLaws` (SWAP on two distinct qubits squares to one and conjugation by it
+relabels a two-qubit gate by the transposition; exchange-type gates are symmetric), the product
+of the routed gates is the gate. -/
+theorem route_den_gate {N : Nat} {interp : Gate → M} (laws : SwapLaws N interp) (setup : Setup)
+    (hs : setup = .linear ∨ setup = .circular) (g : Gate) (hw : WellFormed N g) (hh : Handled g)
+    (hp : Plain g) (out : List Gate) (ho : routeGate N setup g = .ok out) :
+    den interp out = interp g :=
+  routeGate_den laws setup hs g hw hh hp out ho
+
+/-- **(v) route_den.** The routed circuit has the same product as the input circuit. -/
+theorem route_den {N : Nat} {interp : Gate → M} (laws : SwapLaws N interp) (setup : Setup)
+    (hs : setup = .linear ∨ setup = .circular) (gs : List Gate) (hw : ∀ g ∈ gs, WellFormed N g)
+    (hp : ∀ g ∈ gs, Handled g → Plain g) (out : List Gate) (ho : toChain N setup gs = .ok out) :
+    den interp out = den interp gs := by
+  induction gs generalizing out with
+  | nil =>
+    have : out = [] := by simpa [toChain, toChainV] using ho.symm
+    rw [this]
+  | cons g gs ih =>
+    obtain ⟨a, b, ha, hb, rfl⟩ := (toChain_cons ..).mp ho
+    have hb' := ih (fun g hg => hw g (List.mem_cons_of_mem _ hg))
+      (fun g hg => hp g (List.mem_cons_of_mem _ hg)) b hb
+    rw [den_append, hb', den]
+    congr 1
+    by_cases hh : Handled g
+    · exact routeGate_den laws setup hs g (hw g (List.mem_cons_self ..)) hh (hp g (List.mem_cons_self ..) hh) a ha
+    · rw [routeGate_other hh] at ha; cases ha
+      simp [den]
+end
+
+-- the hypotheses are met by a concrete non-trivial circuit
+example : (∀ g ∈ [⟨.other 1, [], [3], 2, 0⟩, ⟨.CNOT, [0], [5], 0, 0⟩, (⟨.SWAPalpha, [], [7, 2], 4, 0⟩ : Gate)],
+      WellFormed 9 g) ∧
+    (∀ g ∈ [⟨.other 1, [], [3], 2, 0⟩, ⟨.CNOT, [0], [5], 0, 0⟩, (⟨.SWAPalpha, [], [7, 2], 4, 0⟩ : Gate)],
+      Handled g → Plain g) := by
+  constructor
+  · intro g hg
+    simp only [List.mem_cons, List.not_mem_nil, or_false] at hg
+    rcases hg with rfl | rfl | rfl
+    · exact ⟨fun h => absurd h (by decide), fun h => absurd h (by decide)⟩
+    · exact ⟨fun _ => ⟨0, 5, rfl, rfl, by decide, by decide, by decide⟩, fun h => absurd h (by decide)⟩
+    · exact ⟨fun h => absurd h (by decide), fun _ => ⟨7, 2, rfl, rfl, by decide, by decide, by decide⟩⟩
+  · intro g hg _
+    simp only [List.mem_cons, List.not_mem_nil, or_false] at hg
+    rcases hg with rfl | rfl | rfl
+    · exact ⟨rfl, fun h => absurd h (by decide)⟩
+    · exact ⟨rfl, fun _ => rfl⟩
+    · exact ⟨rfl, fun h => absurd h (by decide)⟩
+
+/-! ## `adjacent_gates` -/
+
+/-- `QubitCircuit.adjacent_gates` on a circuit of handled gates is the open-chain router
+(so (i)–(v) apply to it with `setup = linear`) … -/
+theorem adjacent_gates_eq_linear (N : Nat) (gs : List Gate) (hh : ∀ g ∈ gs, Handled g) :
+    adjacentGates gs = toChain N .linear gs := by
+  have : gs.any isMeas = false := by
+    rw [List.any_eq_false]; intro g hg; simp [not_isMeas_of_handled (hh g hg)]
+  simp only [adjacentGates, adjacentGatesV, this]
+  exact adjLoop_eq_toChain N gs hh
+
+/-- … and it refuses circuits that contain a measurement. -/
+theorem adjacent_gates_refuses_measurement (gs : List Gate) (h : ∃ g ∈ gs, isMeas g = true) :
+    adjacentGates gs = .error .notImplemented := by
+  have : gs.any isMeas = true := List.any_eq_true.mpr h
+  simp [adjacentGates, adjacentGatesV, this]
+
+example : adjacentGates [⟨.ISWAP, [], [3, 0], 0, 0⟩] = toChain 4 .linear [⟨.ISWAP, [], [3, 0], 0, 0⟩] ∧
+    adjacentGates [⟨.ISWAP, [], [3, 0], 0, 0⟩] =
+      .ok [swapG 0 1, swapG 2 3, ⟨.ISWAP, [], [1, 2], 0, 0⟩, swapG 2 3, swapG 0 1] := by decide
+
+/-! ## the code as found (`Variant.old`) violates the property — concrete witnesses
+
+Each is confirmed on the real code by `py/props/c07.py` (oracle) and repaired by the patch named. -/
+
+/-- (i) fails before `fixes/C07-1.patch`: circular chain, `N = 9`, CNOT(control 0, target 5) —
+the output contains `SWAP[8, 9]`. -/
+theorem C07_counterexample_range_old :
+    toChainV .old 9 .circular [⟨.CNOT, [0], [5], 0, 0⟩] =
+      .ok [swapG 5 6, swapG 8 9, swapG 6 7, ⟨.CNOT, [8], [7], 0, 0⟩, swapG 6 7, swapG 8 0, swapG 5 6] ∧
+    ¬ (∀ out, toChainV .old 9 .circular [⟨.CNOT, [0], [5], 0, 0⟩] = .ok out →
+        ∀ h ∈ out, ∀ q ∈ h.qubits, q < 9) := by
+  have hout : toChainV .old 9 .circular [⟨.CNOT, [0], [5], 0, 0⟩] =
+      .ok [swapG 5 6, swapG 8 9, swapG 6 7, ⟨.CNOT, [8], [7], 0, 0⟩, swapG 6 7, swapG 8 0, swapG 5 6] := by decide
+  refine ⟨hout, fun h => ?_⟩
+  have := h _ hout (swapG 8 9) (by decide) 9 (by decide)
+  omega
+
+/-- (iii)/(v) fail before `fixes/C07-2.patch`: circular chain, `N = 7`, CNOT(control 0, target 4) —
+the swaps move the control to 6 and the target to 5, but the emitted gate is CNOT(control 5, target 6). -/
+theorem C07_counterexample_roles_old :
+    toChainV .old 7 .circular [⟨.CNOT, [0], [4], 0, 0⟩] =
+      .ok (swaps [(4, 5), (6, 0)] ++ ⟨.CNOT, [5], [6], 0, 0⟩ :: swaps [(6, 0), (4, 5)]) ∧
+    track [(4, 5), (6, 0)] 0 = 6 ∧ track [(4, 5), (6, 0)] 4 = 5 := by decide
+
+/-- (v) fails before `fixes/C07-3.patch`: the routed SWAPalpha has lost its argument. -/
+theorem C07_counterexample_arg_old :
+    toChainV .old 2 .linear [⟨.SWAPalpha, [], [0, 1], 7, 0⟩] = .ok [⟨.SWAPalpha, [], [0, 1], 0, 0⟩] := by decide
+
+/-- (iv) fails before `fixes/C07-4.patch`: a measurement does not come out unchanged. -/
+theorem C07_counterexample_meas_old :
+    toChainV .old 2 .linear [⟨.meas 0, [], [1], 0, 0⟩] = .ok [⟨.meas 0, [], [], 0, 0⟩] := by decide
+
 end QipVerif.C07
